@@ -8,7 +8,7 @@ TECHNIQUE = "static analysis over type-checked MIR: CFG reachability from the Re
 LEVEL_TEXT = """Static, all-paths decision of: (F1) the chain interpreter in the per-appender delivery function: from the switch on Filter::filter's Response the Accept arm reaches Append::append without another filter call, the Reject arm cannot reach Append::append and returns Ok, the Neutral arm returns to the iterator step, exhaustion reaches Append::append; (F2) filters are iterated forward over the stored vector and builders append in call order; (F3) in the node's delivery loop the only loop exit is iterator exhaustion and the Err arm records the error and continues; (F4) Log::log calls the error handler at exactly one site, once per item of the returned error vector; (F5) ThresholdFilter::filter returns Reject exactly on record_level > threshold and Neutral otherwise (never Accept). User-supplied filters/appenders are not decided."""
 LEVEL_NOTE = "Trusted: rustc MIR/callee resolution; Vec/slice iterators yield elements in order. Decides the interpreter's control-flow shape for every chain at once; behaviour of user components is outside."
 EXPLANATION = """Decided: F1 chain interpreter arms, F2 declaration order, F3 error isolation, F4 once per error, F5 threshold comparator. Undecided: behaviour of user-supplied Filter/Append implementations."""
-DECIDED = ["F1 Accept/Reject/Neutral arms", "F2 forward iteration, push order", "F3 loop exits only by exhaustion", "F4 one handler call per error", "F5 record_level > threshold => Reject else Neutral", "F6 a fresh filter list per appender in the lossy loader"]
+DECIDED = ["F1 Accept/Reject/Neutral arms", "F2 forward iteration, push order", "F3 loop exits only by exhaustion", "F4 one handler call per error", "F5 record_level > threshold => Reject else Neutral", "F6 a fresh filter list per appender in the lossy loader", "F7 a log::Log used as an appender is handed every admitted record"]
 UNDECIDED = ["user-supplied filters and appenders"]
 TRUSTED = ["rustc nightly MIR + Instance::try_resolve", "std slice/Vec iteration order"]
 
